@@ -22,8 +22,16 @@ pub mod path;
 pub mod recovery;
 pub mod stream;
 
-/// Verification hook (cfg aws_s2n_quic_verif only): lets an external harness drive the ACK manager directly.
+/// Verification hook (cfg aws_s2n_quic_verif only): lets an external harness drive the ACK manager and the
+/// connection ID registries directly.
 #[cfg(aws_s2n_quic_verif)]
 pub mod verif {
-    pub use crate::{ack::AckManager, processed_packet::ProcessedPacket};
+    pub use crate::{
+        ack::AckManager,
+        connection::verif::{
+            ConnectionIdMapper, InternalConnectionId, InternalConnectionIdGenerator,
+            LocalIdRegistry, PeerIdRegistry,
+        },
+        processed_packet::ProcessedPacket,
+    };
 }
